@@ -1,12 +1,17 @@
 package api
 
 // C04 rule sig-tamper: handler.ContentSecurityHandler with two configured keys.
-// Each case sends, to ONE middleware instance inside one bubble,
-//   A  a correctly signed request whose timestamp is Off seconds away from now,
-//   V  the same request with an in-tolerance timestamp (the "valid twin"),
-//   T  V with exactly one field altered after signing.
-// Oracle (strict mode, verified methods): A runs iff |Off| <= tolerance, V runs and
-// reads the original body, T is answered 403 without running the handler.
+// Each case is a SHORT HISTORY of requests against ONE middleware instance inside
+// one bubble (the process-wide state of the security package is shared by all
+// cases of the run as well). Step kinds:
+//   valid   a correctly signed request whose timestamp is Off seconds away from now,
+//   tamper  a correctly signed in-tolerance request with exactly one field altered
+//           after signing (usually the twin of the preceding valid step),
+//   abort   a correctly signed request whose body reader fails after K bytes.
+// Oracle (strict mode, verified methods), for every step independently of the
+// history: valid runs iff |Off| <= tolerance and reads the original body; tamper is
+// answered 403 without running the handler; abort is unspecified for the status,
+// only: the handler must not run when fewer bytes than signed were delivered.
 
 import (
 	"bytes"
@@ -23,19 +28,6 @@ import (
 	"pgregory.net/rapid"
 	"verif.local/kit"
 )
-
-type c04SigCase struct {
-	Strict bool      `json:"strict"`
-	TolMs  int64     `json:"tol"`
-	NowMs  int       `json:"now,omitempty"` // sub-second part of the virtual clock
-	Req    c04SigReq `json:"req"`
-	Off    int64     `json:"off"`  // timestamp offset of request A (seconds)
-	Off2   int64     `json:"off2"` // timestamp offset of V and T
-	Tamper string    `json:"tamper"`
-	Arg    int       `json:"arg,omitempty"`
-	TFr    string    `json:"tfr,omitempty"`   // framing of the tampered request ("=": as the valid twin)
-	Shape  string    `json:"shape,omitempty"` // header shape of the tampered request
-}
 
 func c04Decryptors() (map[string]codec.RsaDecryptor, error) {
 	m := map[string]codec.RsaDecryptor{}
@@ -60,6 +52,28 @@ func (c c04ChunkReader) Read(p []byte) (int, error) {
 	return c.r.Read(p)
 }
 
+// c04AbortReader delivers the first k bytes and then fails.
+type c04AbortReader struct {
+	data []byte
+	err  error
+}
+
+func (a *c04AbortReader) Read(p []byte) (int, error) {
+	if len(a.data) == 0 {
+		return 0, a.err
+	}
+	n := copy(p, a.data)
+	if n > 7 {
+		n = 7
+	}
+	a.data = a.data[n:]
+	return n, nil
+}
+
+type c04BodyError struct{}
+
+func (c04BodyError) Error() string { return "c04: connection reset while reading the body" }
+
 // c04HTTPRequest builds the *http.Request the way net/http would hand it to the
 // handler chain for the chosen framing.
 func c04HTTPRequest(w c04Wire) *http.Request {
@@ -75,6 +89,20 @@ func c04HTTPRequest(w c04Wire) *http.Request {
 		req.Body = http.NoBody
 	default:
 		req.Header.Set("Content-Length", strconv.Itoa(len(w.Body)))
+	}
+	if w.Abort {
+		k := w.AbortAt
+		if k > len(w.Body) {
+			k = len(w.Body)
+		}
+		var e error = io.ErrUnexpectedEOF
+		if w.AbortErr == "custom" {
+			e = c04BodyError{}
+		}
+		req.Body = io.NopCloser(&c04AbortReader{data: append([]byte(nil), w.Body[:k]...), err: e})
+		if w.Framing == "nobody" {
+			req.ContentLength = int64(len(w.Body))
+		}
 	}
 	if !w.NoHeader {
 		for _, v := range w.headerValues() {
@@ -115,17 +143,55 @@ func c04SigJudge(what string, exp c04Exp, wantBody []byte, code int, seen *c04Si
 	return ""
 }
 
+// c04Scrub sends two complete, correctly signed uploads through a throw-away gate
+// before a case starts. They are not judged. Purpose: a case must be a pure
+// function of its data, so whatever process-wide state an EARLIER case may have
+// left in the security package (a defect would have to live there) is overwritten
+// by a normal request first; a defect of that kind is then found, and replayable,
+// inside one history (abort step followed by a valid step).
+func c04Scrub(decs map[string]codec.RsaDecryptor) {
+	mw := handler.ContentSecurityHandler(decs, time.Hour, true)(http.HandlerFunc(func(w http.ResponseWriter, r *http.Request) {
+		io.Copy(io.Discard, r.Body)
+	}))
+	for i := 0; i < 2; i++ {
+		r := c04SigReq{Method: "POST", Path: "/scrub", Body: "scrub-body", KeyLen: 16, Fp: c04FpA}
+		mw.ServeHTTP(httptest.NewRecorder(), c04HTTPRequest(c04Sign(r, time.Now().Unix())))
+	}
+}
+
+type c04SigStep struct {
+	Kind   string    `json:"k"` // valid tamper abort
+	Req    c04SigReq `json:"req"`
+	Off    int64     `json:"off,omitempty"` // timestamp offset (seconds)
+	Tamper string    `json:"tamper,omitempty"`
+	Arg    int       `json:"arg,omitempty"`
+	TFr    string    `json:"tfr,omitempty"`   // framing of the tampered request ("=": as signed)
+	Shape  string    `json:"shape,omitempty"` // header shape of the tampered request
+	At     int       `json:"at,omitempty"`    // abort: bytes delivered before the read error
+	Err    string    `json:"err,omitempty"`   // abort: "ueof" io.ErrUnexpectedEOF, "custom"
+}
+
+type c04SigCase struct {
+	Strict bool         `json:"strict"`
+	TolMs  int64        `json:"tol"`
+	NowMs  int          `json:"now,omitempty"` // sub-second part of the virtual clock
+	Steps  []c04SigStep `json:"steps"`
+}
+
 func c04SigInterp(t *testing.T, c c04SigCase) (v kit.Verdict) {
 	classes := map[string]bool{}
 	var fail string
-	validRan, tamperRefused := false, false
+	ranReqs := map[c04SigReq]bool{}
+	nontrivial := false
 	res := kit.Bubble(t, func() {
 		decs, err := c04Decryptors()
 		if err != nil {
 			fail = "decryptors: " + err.Error()
 			return
 		}
+		c04Scrub(decs)
 		tol := time.Duration(c.TolMs) * time.Millisecond
+		tolS := int64(tol / time.Second)
 		var seen *c04SigSeen
 		mw := handler.ContentSecurityHandler(decs, tol, c.Strict)(http.HandlerFunc(func(w http.ResponseWriter, r *http.Request) {
 			seen.ran++
@@ -142,111 +208,131 @@ func c04SigInterp(t *testing.T, c c04SigCase) (v kit.Verdict) {
 			mw.ServeHTTP(rec, c04HTTPRequest(w))
 			return rec.Code, seen
 		}
-		judged := c.Strict && c04Verified(c.Req.Method)
 		if !c.Strict {
 			classes["non-strict(unjudged)"] = true
 		}
-		if !c04Verified(c.Req.Method) {
-			classes["unverified-method(unjudged)"] = true
-		}
-		classes[fmt.Sprintf("ctype%d", c.Req.CType)] = true
-		plain := c.Req.plainBody()
-		wantBody := append([]byte{}, plain...)
-		fr := c.Req.Fr
-		if fr == "nobody" && len(plain) > 0 {
-			fr = ""
-		}
-		switch {
-		case len(plain) == 0:
-			classes["body:0/"+fr] = true
-		case len(plain) == 1:
-			classes["body:1/"+fr] = true
-		default:
-			classes["body:n/"+fr] = true
-		}
-		if c.Req.CType == 1 && fr == "chunked" && len(plain) > 0 {
-			// the statement is about the gate; whether a chunked encrypted body is
-			// decrypted for the handler is the crypto handler's business
-			wantBody = nil
-			classes["chunked+encrypted(body unjudged)"] = true
-		}
-		if c.Req.ReqURI {
-			classes["x-request-uri"] = true
-		}
-
-		// A: time offset
-		tsA := now.Unix() + c.Off
-		expA := c04Tolerance(tsA, now, tol)
-		if !judged {
-			expA = c04Unspec
-		}
-		code, s := send(c04Sign(c.Req, tsA))
-		tolS := int64(tol / time.Second)
-		switch {
-		case c.Off == tolS || c.Off == -tolS:
-			classes["A:at-boundary"] = true
-		case c.Off == tolS+1 || c.Off == -tolS-1:
-			classes["A:just-outside"] = true
-		case c.Off == tolS-1 || c.Off == 1-tolS:
-			classes["A:just-inside"] = true
-		}
-		classes["A:"+expA.String()] = true
-		if msg := c04SigJudge(fmt.Sprintf("A (timestamp now%+ds, tolerance %v, now has %dms)", c.Off, tol, c.NowMs), expA, wantBody, code, s); msg != "" {
-			fail = msg
-			return
-		}
-		if !judged {
-			if s.ran == 1 {
-				classes["unjudged:ran"] = true
-			} else {
-				classes["unjudged:refused"] = true
+		afterAbort := false
+		for i, st := range c.Steps {
+			judged := c.Strict && c04Verified(st.Req.Method)
+			if !c04Verified(st.Req.Method) {
+				classes["unverified-method(unjudged)"] = true
+			}
+			plain := st.Req.plainBody()
+			fr := st.Req.Fr
+			if fr == "nobody" && len(plain) > 0 {
+				fr = ""
+			}
+			ts := now.Unix() + st.Off
+			switch st.Kind {
+			case "valid":
+				classes[fmt.Sprintf("ctype%d", st.Req.CType)] = true
+				if st.Req.ReqURI {
+					classes["x-request-uri"] = true
+				}
+				wantBody := append([]byte{}, plain...)
+				switch {
+				case len(plain) == 0:
+					classes["body:0/"+fr] = true
+				case len(plain) == 1:
+					classes["body:1/"+fr] = true
+				default:
+					classes["body:n/"+fr] = true
+				}
+				if st.Req.CType == 1 && fr == "chunked" && len(plain) > 0 {
+					// the statement is about the gate; whether a chunked encrypted body is
+					// decrypted for the handler is the crypto handler's business
+					wantBody = nil
+					classes["chunked+encrypted(body unjudged)"] = true
+				}
+				exp := c04Tolerance(ts, now, tol)
+				if !judged {
+					exp = c04Unspec
+				}
+				switch {
+				case st.Off == tolS || st.Off == -tolS:
+					classes["valid:at-boundary"] = true
+				case st.Off == tolS+1 || st.Off == -tolS-1:
+					classes["valid:just-outside"] = true
+				case st.Off == tolS-1 || st.Off == 1-tolS:
+					classes["valid:just-inside"] = true
+				}
+				classes["valid:"+exp.String()] = true
+				if afterAbort && exp == c04Accept {
+					classes["valid-right-after-abort"] = true
+				}
+				code, s := send(c04Sign(st.Req, ts))
+				what := fmt.Sprintf("step %d valid (timestamp now%+ds, tolerance %v, now has %dms, %s %s)", i, st.Off, tol, c.NowMs, st.Req.Method, st.Req.Path)
+				if msg := c04SigJudge(what, exp, wantBody, code, s); msg != "" {
+					fail = msg
+					return
+				}
+				if exp == c04Accept {
+					ranReqs[st.Req] = true
+				}
+				if !judged {
+					if s.ran == 1 {
+						classes["unjudged:ran"] = true
+					} else {
+						classes["unjudged:refused"] = true
+					}
+				}
+				afterAbort = false
+			case "tamper":
+				wire, changed := c04Tamper(c04Sign(st.Req, ts), st.Req, ts, st.Tamper, st.Arg)
+				if !changed {
+					classes["tamper-identity"] = true
+					continue
+				}
+				if st.TFr != "=" {
+					wire.Framing = st.TFr
+				}
+				wire.Shape = st.Shape
+				classes["T-framing:"+wire.Framing] = true
+				classes["T-shape:"+st.Shape] = true
+				exp := c04Reject
+				if !c.Strict || !c04Verified(wire.Method) {
+					exp = c04Unspec // the statement speaks about strict mode and GET/POST/PUT/DELETE only
+					classes["tamper:unjudged"] = true
+				}
+				code, s := send(wire)
+				classes["tamper:"+st.Tamper] = true
+				if afterAbort {
+					classes["tamper-right-after-abort"] = true
+				}
+				if msg := c04SigJudge(fmt.Sprintf("step %d tamper (%s altered, arg %d, %s %s)", i, st.Tamper, st.Arg, st.Req.Method, st.Req.Path), exp, nil, code, s); msg != "" {
+					fail = msg
+					return
+				}
+				if exp == c04Reject && ranReqs[st.Req] {
+					nontrivial = true
+				}
+				afterAbort = false
+			case "abort":
+				wire := c04Sign(st.Req, ts)
+				wire.Abort, wire.AbortAt, wire.AbortErr = true, st.At, st.Err
+				code, s := send(wire)
+				switch {
+				case st.At >= len(wire.Body):
+					classes["abort:after-all-bytes"] = true
+				case st.At == 0:
+					classes["abort:at-once"] = true
+				default:
+					classes["abort:midway"] = true
+				}
+				if judged && st.At < len(wire.Body) && s.ran != 0 {
+					fail = fmt.Sprintf("step %d abort: only %d of the %d signed body bytes arrived, yet the handler ran (status %d, body %q)", i, st.At, len(wire.Body), code, s.body)
+					return
+				}
+				if s.ran == 1 {
+					classes["abort:ran"] = true
+				} else {
+					classes[fmt.Sprintf("abort:status-%d", code)] = true
+				}
+				afterAbort = true
 			}
 		}
-
-		// V: the valid twin
-		tsV := now.Unix() + c.Off2
-		expV := c04Tolerance(tsV, now, tol)
-		if !judged {
-			expV = c04Unspec
-		}
-		wireV := c04Sign(c.Req, tsV)
-		code, s = send(wireV)
-		if msg := c04SigJudge(fmt.Sprintf("V (valid twin, timestamp now%+ds, tolerance %v)", c.Off2, tol), expV, wantBody, code, s); msg != "" {
-			fail = msg
-			return
-		}
-		if expV == c04Accept {
-			validRan = true
-		}
-
-		// T: exactly one alteration
-		wireT, changed := c04Tamper(wireV, c.Req, tsV, c.Tamper, c.Arg)
-		if !changed {
-			classes["tamper-identity"] = true
-			return
-		}
-		if c.TFr != "=" {
-			wireT.Framing = c.TFr
-		}
-		wireT.Shape = c.Shape
-		classes["T-framing:"+wireT.Framing] = true
-		classes["T-shape:"+c.Shape] = true
-		expT := c04Reject
-		if !c.Strict || !c04Verified(wireT.Method) {
-			expT = c04Unspec // the statement speaks about strict mode and GET/POST/PUT/DELETE only
-			classes["T:unjudged"] = true
-		}
-		code, s = send(wireT)
-		classes["tamper:"+c.Tamper] = true
-		if msg := c04SigJudge(fmt.Sprintf("T (valid twin with %s altered, arg %d)", c.Tamper, c.Arg), expT, nil, code, s); msg != "" {
-			fail = msg
-			return
-		}
-		if expT == c04Reject {
-			tamperRefused = true
-		}
 	})
-	v.NonTrivial = validRan && tamperRefused
+	v.NonTrivial = nontrivial
 	v.Classes = c04ClassList(classes)
 	if fail != "" {
 		v.Fail = fail
@@ -288,16 +374,17 @@ func c04GenSigReq(rt *rapid.T) c04SigReq {
 	return r
 }
 
-func c04GenOffsets(rt *rapid.T, tolMs int64) (off, off2 int64) {
-	tolS := tolMs / 1000
-	cands := []int64{0, tolS - 1, -(tolS - 1), tolS, -tolS, tolS + 1, -(tolS + 1), tolS + 2, -(tolS + 2), 86400 * 2, -86400 * 2, 31536000, -31536000}
-	off = rapid.SampledFrom(cands).Draw(rt, "off")
-	in := []int64{0}
+func c04GenInTol(rt *rapid.T, tolS int64) int64 {
+	in := []int64{0, 0}
 	if tolS >= 2 {
 		in = append(in, 1, -1, tolS-1, -(tolS - 1), tolS/2, -tolS/2)
 	}
-	off2 = rapid.SampledFrom(in).Draw(rt, "off2")
-	return
+	return rapid.SampledFrom(in).Draw(rt, "off-in")
+}
+
+func c04GenAnyOff(rt *rapid.T, tolS int64) int64 {
+	cands := []int64{0, tolS - 1, -(tolS - 1), tolS, -tolS, tolS + 1, -(tolS + 1), tolS + 2, -(tolS + 2), 86400 * 2, -86400 * 2, 31536000, -31536000}
+	return rapid.SampledFrom(cands).Draw(rt, "off")
 }
 
 func c04SigGen(rt *rapid.T) c04SigCase {
@@ -307,16 +394,68 @@ func c04SigGen(rt *rapid.T) c04SigCase {
 	if rapid.IntRange(0, 3).Draw(rt, "frac") == 0 {
 		c.NowMs = rapid.SampledFrom([]int{1, 250, 500, 999}).Draw(rt, "nowms")
 	}
-	c.Req = c04GenSigReq(rt)
-	c.Off, c.Off2 = c04GenOffsets(rt, c.TolMs)
-	c.Tamper = rapid.SampledFrom(c04Tampers).Draw(rt, "tamper")
-	c.Arg = rapid.IntRange(0, 1000).Draw(rt, "arg")
-	c.TFr = rapid.SampledFrom([]string{"=", "=", "", "chunked", "chunked", "nobody"}).Draw(rt, "tframing")
-	c.Shape = rapid.SampledFrom(c04Shapes).Draw(rt, "shape")
+	tolS := c.TolMs / 1000
+	n := rapid.IntRange(2, 8).Draw(rt, "nsteps")
+	var lastValid *c04SigReq
+	var lastAbort *c04SigStep
+	for i := 0; i < n; i++ {
+		kinds := []string{"valid", "valid", "valid", "tamper", "tamper", "abort", "abort"}
+		if lastValid != nil {
+			kinds = append(kinds, "tamper", "tamper")
+		}
+		k := rapid.SampledFrom(kinds).Draw(rt, "kind")
+		st := c04SigStep{Kind: k}
+		switch k {
+		case "valid":
+			st.Req = c04GenSigReq(rt)
+			if lastAbort != nil && rapid.Bool().Draw(rt, "same-as-abort") {
+				st.Req = lastAbort.Req // the intact retry of the aborted upload
+			}
+			if rapid.IntRange(0, 2).Draw(rt, "boundary?") == 0 {
+				st.Off = c04GenAnyOff(rt, tolS)
+			} else {
+				st.Off = c04GenInTol(rt, tolS)
+			}
+			r := st.Req
+			lastValid = &r
+			lastAbort = nil
+		case "tamper":
+			if lastValid != nil && rapid.IntRange(0, 4).Draw(rt, "twin") > 0 {
+				st.Req = *lastValid
+			} else {
+				st.Req = c04GenSigReq(rt)
+			}
+			st.Off = c04GenInTol(rt, tolS)
+			st.Tamper = rapid.SampledFrom(c04Tampers).Draw(rt, "tamper")
+			st.Arg = rapid.IntRange(0, 1000).Draw(rt, "arg")
+			if lastAbort != nil && lastAbort.At > 0 && rapid.Bool().Draw(rt, "suffix-of-aborted") {
+				// the bytes the aborted upload did NOT deliver, sent under the signature of the whole body
+				st.Req = lastAbort.Req
+				st.Tamper, st.Arg = "body-suffix", lastAbort.At
+			}
+			st.TFr = rapid.SampledFrom([]string{"=", "=", "", "chunked", "chunked", "nobody"}).Draw(rt, "tframing")
+			st.Shape = rapid.SampledFrom(c04Shapes).Draw(rt, "shape")
+			lastAbort = nil
+		case "abort":
+			st.Req = c04GenSigReq(rt)
+			if st.Req.Body == "" {
+				st.Req.Body = rapid.SampledFrom([]string{"hello", "0123456789abcdef0123456789abcdef", `{"name":"alice","n":1}`}).Draw(rt, "abody")
+			}
+			if st.Req.Fr == "nobody" {
+				st.Req.Fr = ""
+			}
+			st.Off = c04GenInTol(rt, tolS)
+			st.At = rapid.SampledFrom([]int{0, 1, 2, 3, 5, 8, 16, 17, 100, 100000}).Draw(rt, "at")
+			st.Err = rapid.SampledFrom([]string{"ueof", "custom"}).Draw(rt, "err")
+			a := st
+			lastAbort = &a
+		}
+		c.Steps = append(c.Steps, st)
+	}
 	return c
 }
 
 func TestVerif_C04_sig(t *testing.T) {
-	kit.Run(t, "C04", "sig-tamper", kit.Opts{Quick: 1500, Thorough: 48000}, c04SigGen,
+	kit.Run(t, "C04", "sig-tamper", kit.Opts{Quick: 1200, Thorough: 40000}, c04SigGen,
 		func(c c04SigCase) kit.Verdict { return c04SigInterp(t, c) })
 }
